@@ -27,10 +27,11 @@ struct HRule : public Rule {
 // ---- task: logs the protocol events it sees
 enum Ev { EV_START = 1, EV_PRIOR, EV_VALUE, EV_INPUTS };
 struct HTask : public Task {
+  bool requestInPrior = false;   // a task may ask for an input while it is given its prior value
   int ev[8]; uint64_t evArg[8]; uint8_t evVal[8]; int nev = 0;
   void log(int e, uint64_t a, uint8_t v) { if (nev < 8) { ev[nev] = e; evArg[nev] = a; evVal[nev] = v; } nev++; }
   void start(TaskInterface) override { log(EV_START, 0, 0); }
-  void providePriorValue(TaskInterface, const ValueType& v) override { log(EV_PRIOR, 0, v.size() ? v[0] : 0xEE); }
+  void providePriorValue(TaskInterface ti, const ValueType& v) override { log(EV_PRIOR, 0, v.size() ? v[0] : 0xEE); if (requestInPrior) ti.request(KeyType("dep"), 3); }
   void provideValue(TaskInterface, uintptr_t id, const KeyType&, const ValueType& v) override { log(EV_VALUE, id, v.size() ? v[0] : 0xEE); }
   void inputsAvailable(TaskInterface) override { log(EV_INPUTS, 0, 0); }
 };
